@@ -982,7 +982,7 @@ def run(chk):
                 chk.notes.append("a re-used window behaves differently from a fresh one: every history gets a new window")
                 env.always_fresh = True
         chk.sample(dict(events=FIXED[8], final={k: runs[8].digests[-1][k] for k in ("tr", "tb", "rp")}))
-        nrand = 45 if chk.quick else 350
+        nrand = 70 if chk.quick else 350
         budget = 30 if chk.quick else 110
         for i in range(nrand):
             if time.time() - t0 > budget:
